@@ -728,6 +728,49 @@ def sequential_read(fmt, simfile, rp):
                     _tell(False)
                 except StopIteration:
                     break
+        elif mode == 'mixed':
+            # advancing calls interleaved with calls on the *current* record (the default of read_structure / read_metadata),
+            # also right after a call that refused a damaged or empty record.  Whatever a call returns must be the record the
+            # counter points at, as a plain sequential pass over the same bytes sees it.
+            ref, _ = open_reader(fmt, SimFile(bytes(simfile.data)), {k: rp[k] for k in ('remap', 'calc_ct', 'ignore_stereo', 'buffer_size') if k in rp})
+            seq = []
+            while len(seq) < 5000:
+                try:
+                    seq.append(('ok', record_view(ref.read_structure(current=False), fmt)))
+                except EOFError:
+                    break
+                except Exception as e:
+                    seq.append(('err', type(e).__name__))
+            seen = {}
+
+            def check(rec, what):
+                t = reader.tell()
+                v = record_view(rec, fmt)
+                if not 1 <= t <= len(seq) or seq[t - 1][0] != 'ok' or first_diff(seq[t - 1][1], v):
+                    raise Violation('current-record-wrong', f'{fmt}: {what} returned a record that is not record {t - 1} of the file '
+                                                            f'(tell()={t}, sequential pass sees {seq[t - 1][0] if 1 <= t <= len(seq) else "nothing"} there)')
+                seen[t - 1] = rec
+            pat = rp.get('pattern') or [1, 0, 2]
+            k = 0
+            while True:
+                try:
+                    check(reader.read_structure(current=False), 'read_structure(current=False)')
+                except EOFError:
+                    break
+                except (ValueError, LookupError):
+                    pass
+                a = pat[k % len(pat)]
+                k += 1
+                try:
+                    if a == 2:
+                        reader.read_metadata()
+                    if a:
+                        check(reader.read_structure(), 'read_structure() after ' + ('read_metadata()' if a == 2 else 'an advancing call'))
+                except EOFError:
+                    break
+                except (ValueError, LookupError):
+                    pass
+            out = [seen[i] for i in sorted(seen)]
         elif mode == 'structure':
             while True:
                 try:
@@ -1488,10 +1531,12 @@ def generate(seed):
                 op['sector'] = f.random() < 0.3
             ops.append(op)
         trace['damage'] = ops
-    rmodes = ['for', 'for', 'read', 'readn', 'next', 'structure']
+    rmodes = ['for', 'for', 'read', 'readn', 'next', 'structure', 'mixed']
     for _ in range(s.choice([1, 1, 2])):
         rp = {'mode': s.choice(rmodes), 'n': s.choice([1, 2, 3]), 'bufsize': s.choice([16, 128, 8192]),
               'via': s.choice(['wrapper', 'open', 'open', 'pathlib'])}
+        if rp['mode'] == 'mixed':
+            rp['pattern'] = [s.randrange(3) for _ in range(s.choice([1, 2, 3, 5]))]
         if s.random() < 0.4:
             rp['chunk'] = s.choice([1, 3, 7, 64, 511])
         if mode == 'clean' and s.random() < 0.15:
